@@ -45,7 +45,8 @@ META = dict(
           "override:_OpProd", "override:SumOperator", "override:ChainOperator",
           "override:StandardHamiltonian", "override:_LikelihoodChain",
           "override:VariableCovarianceGaussianEnergy", "override:Operator(generic)",
-          "ConstCollector.add", "ConstCollector.mult", "sum_same_target_key"],
+          "ConstCollector.add", "ConstCollector.mult", "sum_same_target_key",
+          "md_target_difference_programs"],
     quick=dict(cases=240, workers=6, budget_s=75),
     thorough=dict(cases=8000, workers=16, budget_s=780),
     design_ref="DESIGN.md §5 C04",
@@ -130,7 +131,8 @@ def gen_case(ck, rng, mr):
     cplx = bool(rng.integers(0, 6) == 0)
     cfg = dict(md=True, nkeys=(2, 4), cplx=cplx, steps=(3, ck.pick(9, 13)),
                maxdepth=ck.pick(6, 9), energy=0.5, leafops=True, p_subst=0.1,
-               jax=bool(rng.integers(0, 4) == 0), p_share=0.4, mdweight=3, linstart=0.5)
+               jax=bool(rng.integers(0, 4) == 0), p_share=0.4, mdweight=3, linstart=0.5,
+               force_varcov=bool(rng.integers(0, 10) == 0))
     want = 3 if rng.integers(0, 2) else 2      # half of the cases insist on >= 3 used keys
     best = None
     for _ in range(8):
@@ -154,8 +156,15 @@ def cols_of(lay, keys):
 
 
 def same_key_sum(prog):
-    return any(nd[0] == "pack" and len({k for k, _ in nd[1]}) < len(nd[1])
-               for nd in prog["nodes"]) or any(nd[0] == "mdadd" for nd in prog["nodes"])
+    return any(nd[0] == "pack" and len({it[0] for it in nd[1]}) < len(nd[1])
+               for nd in prog["nodes"]) or any(nd[0] in ("mdadd", "mdsub")
+                                               for nd in prog["nodes"])
+
+
+def linear_md_difference(prog):
+    """a linear difference with a MultiDomain target (negated pack item / mdsub)"""
+    return any((nd[0] == "pack" and any(len(it) > 2 and it[2] for it in nd[1]))
+               or nd[0] == "mdsub" for nd in prog["nodes"])
 
 
 def culprit(I, mr, prog, ops, xf, cset, lay, xvec, wm):
@@ -241,6 +250,8 @@ def case(ck, i):
     me = mr.expected_metric(prog, root, xvec) if energy else None
     if same_key_sum(prog):
         ck.hit("sum_same_target_key")
+    if linear_md_difference(prog):
+        ck.hit("md_target_difference_programs")
 
     subsets = [c for r in range(1, len(keys)) for c in itertools.combinations(keys, r)]
     any_nontrivial = False
